@@ -15,7 +15,7 @@ from sim.terms import EX, XSD, T, key, skey, u
 
 ID = "C12"
 LEVEL = "fault_enumeration"
-TIERS = {"quick": {"runs": 1200}, "thorough": {"runs": 30000, "wall_cap": 3300}}
+TIERS = {"quick": {"runs": 4800, "wall_cap": 600}, "thorough": {"runs": 60000, "wall_cap": 3300}}
 RULE = (
     "each evaluation is one seeded history of 1-5 parse() calls (N-Triples, N-Quads, Turtle, TriG, N3, RDF/XML, TriX, JSON-LD, HexTuples mixed) "
     "into one sink (Graph on Memory or SimpleMemory, Dataset with default_union off/on, ConjunctiveGraph, named Graph view on a dataset store) "
@@ -133,7 +133,14 @@ def generate(seed, tier):
             call["fault"] = {"kind": g.choice(["error", "eof"]), "frac": g.random()}
         calls.append(call)
         prev = (quads, fmt)
-    return {"property": ID, "config": {"sink": sink, "init": init, "bufsiz": g.choice([1, 3, 7, 64, 2048, 2048])}, "ops": calls}
+    cfg = {"sink": sink, "init": init, "bufsiz": g.choice([1, 3, 7, 64, 2048, 2048])}
+    if tier == "thorough" and g.random() < 0.08:
+        cfg["enumerate"] = True
+        cfg["enum_call"] = g.randrange(ncalls)
+        for c in calls:
+            c.pop("fault", None)
+            c["quads"] = c["quads"][:3]
+    return {"property": ID, "config": cfg, "ops": calls}
 
 
 def nontrivial(trace, res):
@@ -215,6 +222,33 @@ def _deliver(call, doc, stats):
 
 
 def execute(trace, ctx):
+    """thorough tier, `enumerate`: the history is re-run once per byte offset of the chosen call's document and per fault kind
+    (fault enumeration inside a seeded history sample); otherwise the history is run once as generated"""
+    cfg = trace["config"]
+    if not cfg.get("enumerate"):
+        return _execute(trace, ctx)
+    _execute(trace, ctx)
+    j = cfg["enum_call"] % len(trace["ops"])
+    call = trace["ops"][j]
+    try:
+        doc = writers.WRITERS[call["format"]]([[x if not (x and x[0] == "b" and x[1] == "@gen") else ["b", "nogen"] for x in q] for q in call["quads"]] if call["format"] in writers.QUAD_FORMATS else [q[:3] + [None] for q in call["quads"]])
+    except ValueError:
+        return
+    n = len(doc.encode("utf-8"))
+    import copy as _copy
+
+    for k in range(0, n, max(1, n // 160)):
+        for kind in ("error", "eof"):
+            t = _copy.deepcopy(trace)
+            t["ops"] = t["ops"][: j + 1]
+            t["ops"][j]["mode"] = "raw"
+            t["ops"][j]["chunks"] = [max(1, n // 5)]
+            t["ops"][j]["fault"] = {"kind": kind, "at": k}
+            ctx.probe("enumerated-fault-offsets")
+            _execute(t, ctx)
+
+
+def _execute(trace, ctx):
     import warnings
 
     import rdflib.plugins.parsers.ntriples as ntmod
@@ -346,7 +380,7 @@ def execute(trace, ctx):
                 generated.append(b[1])
         generated.sort()
         ctx.log("parse", f"{fmt} {call['mode']} fault={call.get('fault', {}).get('kind')} fired={fired} err={type(err).__name__ if err else None} +{len(added)}")
-        ctx.state(kind, fmt, len(new))
+        ctx.state(kind, fmt, call["mode"], repr(call.get("fault")), fired, type(err).__name__ if err else None, len(old), len(added), len(iso.bnodes(added)), len(labels & old_b))
         old = new
 
 
